@@ -3,24 +3,34 @@
 (* C16 -- FilesParagraph.files_pattern(): the compiled regex is cached,    *)
 (* keyed by the text of the Files field, "until files is set to a          *)
 (* different value".  A small closed state machine over a pool of pattern  *)
-(* lists: SetFiles(ps) / Match(nm) in any order, any number of times.      *)
-(* doc = <<files>> is the current Files value, key/cre the cache, res the  *)
-(* result of the last call.  TLC checks that the cache is coherent in      *)
-(* every reachable state and that every Match returns what the reference   *)
-(* RefMatches says for the CURRENT files.  The LTS is emitted as EDGE      *)
-(* lines (Emit # "none") and replayed on the real object.                  *)
-(* Negative control: StaleCache = TRUE (compile once, never refresh)       *)
-(* violates SameResult.                                                    *)
+(* lists (three of them ill-formed): SetFiles(ps) / Match(nm) / Find(nm)   *)
+(* in any order, any number of times.  doc = <<files>> is the current      *)
+(* Files value, key/cre the cache, res the result of the last call.        *)
+(* Match and Find on an ill-formed Files value RAISE and leave the cache   *)
+(* untouched, so that the error is reported again by EVERY later query     *)
+(* until Files is changed (also after a detour through a legal value and   *)
+(* back).  TLC checks that the cache is coherent in every reachable state  *)
+(* and that every query returns what the reference says for the CURRENT    *)
+(* files.  The LTS is emitted as EDGE lines (Emit # "none") and replayed   *)
+(* on the real object (Find: the paragraph inside a Copyright document).   *)
+(* Negative controls (both make TLC report SameResult violated):           *)
+(*   StaleCache = TRUE          compile once, never refresh                *)
+(*   KeyBeforeTranslate = TRUE  the new key is stored BEFORE globs_to_re   *)
+(*                              is called: when that raises, the key is    *)
+(*                              new and the regex old -- the first query   *)
+(*                              raises, every later one answers from the   *)
+(*                              stale regex (seeded change C16-seedC)      *)
 (***************************************************************************)
 EXTENDS Glob
 
-CONSTANTS Pool,         \* set of pattern lists the Files field is set to
-          QNames,       \* names queried
-          StaleCache    \* FALSE
+CONSTANTS Pool,               \* set of pattern lists the Files field is set to
+          QNames,             \* names queried
+          StaleCache,         \* FALSE
+          KeyBeforeTranslate  \* FALSE
 
 VARIABLES key,          \* cached Files value (<<>> = the initial '' key)
           cre,          \* cached regex (sequence of alternatives)
-          res           \* "ok" | "match" | "nomatch" | "FormatError"
+          res           \* "ok" | "match" | "nomatch" | "found" | "none" | "FormatError"
 
 cvars == <<doc, n, key, cre, res>>
 
@@ -36,26 +46,35 @@ SetFiles(ps) == /\ doc' = <<ps>> /\ res' = "ok" /\ UNCHANGED <<n, key, cre>>
                 /\ Edge("setfiles", ps)
 
 MatchRe(re, nm) == IF RegexMatch(re, nm, Discipline) THEN "match" ELSE "nomatch"
+Ans(re, nm, yes, no) == IF RegexMatch(re, nm, Discipline) THEN yes ELSE no
 
-Match(nm) ==
-   /\ n' = nm /\ UNCHANGED doc
-   /\ LET refresh == IF StaleCache THEN key = <<>> ELSE key # doc[1] IN
-      IF refresh
-      THEN IF RegexErr(doc[1])
-           THEN res' = "FormatError" /\ UNCHANGED <<key, cre>>          \* globs_to_re raised
-           ELSE key' = doc[1] /\ cre' = Regex(doc[1]) /\ res' = MatchRe(cre', nm)
-      ELSE UNCHANGED <<key, cre>> /\ res' = MatchRe(cre, nm)
-   /\ Edge("matches", nm)
+\* files_pattern() followed by fullmatch
+Lookup(nm, yes, no) ==
+   LET refresh == IF StaleCache THEN key = <<>> ELSE key # doc[1] IN
+   IF refresh
+   THEN IF RegexErr(doc[1])
+        THEN /\ res' = "FormatError"                                    \* globs_to_re raised
+             /\ IF KeyBeforeTranslate THEN key' = doc[1] /\ UNCHANGED cre
+                                      ELSE UNCHANGED <<key, cre>>
+        ELSE key' = doc[1] /\ cre' = Regex(doc[1]) /\ res' = Ans(cre', nm, yes, no)
+   ELSE UNCHANGED <<key, cre>> /\ res' = Ans(cre, nm, yes, no)
 
-CNext == (\E ps \in Pool : SetFiles(ps)) \/ (\E nm \in QNames : Match(nm))
+Match(nm) == n' = nm /\ UNCHANGED doc /\ Lookup(nm, "match", "nomatch") /\ Edge("matches", nm)
+\* Copyright.find_files_paragraph on the document whose only Files paragraph this is
+Find(nm)  == n' = nm /\ UNCHANGED doc /\ Lookup(nm, "found", "none") /\ Edge("find", nm)
+
+CNext == (\E ps \in Pool : SetFiles(ps)) \/ (\E nm \in QNames : Match(nm) \/ Find(nm))
 CSpec == CInit /\ [][CNext]_cvars
 CView == <<doc, key, cre>>          \* n and res are outputs
 
 \* constants of MC_GlobCache.cfg (a cfg file cannot spell tuples)
 MCPool   == { << <<97>> >>, << <<97, 42>> >>, << <<98, 63>> >>, << <<98>>, <<97, 63>> >>,
-              << <<92, 97>> >>, << <<97, 98>>, <<42, 98>> >> }
-MCQNames == { <<97>>, <<97, 98>>, <<98>>, <<98, 98>>, <<98, 10>> }
+              << <<97, 98>>, <<42, 98>> >>,
+              << <<92, 97>> >>, << <<98, 92>> >>, << <<97>>, <<92, 98>> >> }        \* ill-formed
+MCQNames == { <<>>, <<97>>, <<97, 98>>, <<98>>, <<98, 98>>, <<98, 10>> }
 
 CacheCoherent == key # <<>> => cre = Regex(key)
-SameResult == [][\A nm \in QNames : Match(nm) => res' = RefMatches(doc[1], nm)]_cvars
+FindStr(k) == IF k = -1 THEN "FormatError" ELSE IF k = 0 THEN "none" ELSE "found"
+SameResult == [][\A nm \in QNames : /\ Match(nm) => res' = RefMatches(doc[1], nm)
+                                    /\ Find(nm)  => res' = FindStr(RefFind(doc, nm))]_cvars
 =============================================================================
